@@ -11,6 +11,7 @@ import HpxVerif.Model.Hash
 import HpxVerif.Model.Bilinear
 import HpxVerif.Model.C2V
 import HpxVerif.Model.Once
+import HpxVerif.Model.OnceProg
 import HpxVerif.Model.Ring
 import HpxVerif.Model.Cover
 import HpxVerif.Model.SphGeom
@@ -216,6 +217,7 @@ def stepRest (st : St) (toks : List String) : St × String :=
   | ["rcpc", n, h] => (st, optPairF (Ring.centerOfProjectedCell st.debug (nat! n) (nat! h)))
   | ["rsphcoo", n, h, dx, dy] => (st, optPairF (Ring.sphCoo st.debug (nat! n) (nat! h) (fl dx) (fl dy)))
   | "once" :: n :: sched => (st, onceOp (nat! n) (sched.map nat!))
+  | ["onceprog"] => (st, OnceProg.report)
   | ["c2v", d, lon, lat] => (st, match C2V.largestC2V st.debug (nat! d) (fl lon) (fl lat) with | some v => fb v | none => "panic")
   | ["c2vr", d, lon, lat, r] => (st, match C2V.largestC2VWithRadius st.debug (nat! d) (fl lon) (fl lat) (fl r) with | some v => fb v | none => "panic")
   | ["c2vs", f, t, lon, lat, r] =>
